@@ -92,7 +92,7 @@ def configs_for(st: SchemaType, tier: str) -> List[Config]:
         lens = [(), ("len",), ("min_len",), ("max_len",), ("min_len", "max_len")]
         for ln in lens:
             out.append(Config(ln))
-            out.append(Config(("type",) + ln, label="{type" + "".join("," + x for x in ln) + "}"))
+            out.append(Config(("type",) + ln, {"type": lambda: member("T")}, label="{type" + "".join("," + x for x in ln) + "}"))
         for name, mk in list_shapes(3 if tier == "quick" else 4):
             for ln in (lens if tier != "quick" else [(), ("len",), ("min_len", "max_len")]):
                 out.append(Config(("elements",) + ln, {"elements": mk}, label=f"elements={name}" + "".join("," + x for x in ln)))
@@ -121,6 +121,11 @@ def run_visit(prog: Program, model: Model, visitor: str, hook: str, cfg: Config,
               schema_type: Optional[SchemaType] = None) -> List[Path]:
     st = schema_type or model.by_hook[hook]
     it = Interp(prog, model, unroll=unroll, max_depth=max_depth)
+    if visitor == "Substitutor":
+        # the validator run by the substitutor is summarised by its contract (total, returns a result: C08)
+        vbase = model.visitors["Validator"]
+        it.accept_summary = lambda recv, v: isinstance(v, Inst) and v.cls.is_subclass_of(vbase)  # type: ignore
+        it.contracts["d42.utils._from_native.from_native"] = _c_from_native
 
     def run(i: Interp) -> V:
         v = make_visitor(i, visitor)
@@ -131,6 +136,23 @@ def run_visit(prog: Program, model: Model, visitor: str, hook: str, cfg: Config,
             kw.update(kwargs_spread())
         return i.call_function(f, [s], kw, self_val=v)
     return it.run_paths(run, max_paths=max_paths)
+
+
+def _c_from_native(interp: Any, fv: Any, args: List[Any], kwargs: Dict[str, V], node: Any) -> Optional[V]:
+    """from_native summarised by its contract (C14): returns a schema or raises ValueError."""
+    from .interp import _Raise
+    from .values import ExcV
+    ev = interp.emit("call", node, callee=fv.func.qualname, args=args, kwargs=kwargs, resolved=True, inlined=False,
+                     summarised=True)
+    if interp.may_be_caught(ValueError):
+        c = interp.ch.choose(2, f"from_native-raises:{getattr(node, 'lineno', 0)}:{args[0].key() if args else ''}")
+        if c == 1:
+            ev.data["raised"] = ValueError
+            raise _Raise(ExcV(ValueError, [], node), node, implicit=True)
+    else:
+        interp.emit("partial", node, op="from_native", excs=(ValueError,), definite=False, operands=tuple(args))
+    a = args[0] if args else NIL
+    return Sym(f"native({a.key()})", "Schema", ("from_native", a))
 
 
 def make_visitor(i: Interp, visitor: str) -> Inst:
